@@ -348,7 +348,7 @@ _reg(
     "by the inputs of that run) are compared with the runtime tensor; (4) postprocess_ir_model is wrapped: intermediate annotations may only get "
     "weaker (None <= symbolic <= concrete), graph inputs/outputs must not change. evaluations = model runs monitored; non-trivial = >= 1 annotated "
     "intermediate executed; distinct = (program, binding / steering input).",
-    (800, 700, 4000, 3500),
+    (600, 550, 3000, 2500),
     "annotation monitor: every annotated value exposed and executed (top graph, function bodies, Loop/If bodies via a body driver); declared dtype/dims vs runtime tensor; pre/post snapshot around post-processing",
     "DESIGN.md 3/C08",
     "Exploration over all values of all exported models x symbol bindings / trip counts; Scan nodes are not driven (counted).",
